@@ -393,8 +393,9 @@ def gen_case(rng, nmax, smax, maxops):
         elif name == "flip":
             op["axes"] = rng.choice([["x"], ["y"], ["z"], ["x", "y"], ["z", "x"], ["y", "z"]])
         elif name == "crop":
-            w2 = rng.choice([0] + [v for v in range(1, w + 1) if (w - v) % 2 == 0])
-            h2 = rng.choice([0] + [v for v in range(1, h + 1) if (h - v) % 2 == 0])
+            # every size 1..length in all four parity combinations; width only / height only / both (0 = not given)
+            w2 = rng.choice([0, 0] + list(range(1, w + 1)) + [w, 1])
+            h2 = rng.choice([0, 0] + list(range(1, h + 1)) + [h, 1])
             op["w"], op["h"] = w2, h2
             w, h = (w2 or w), (h2 or h)
             binnable = False
@@ -423,14 +424,16 @@ def run(ctx):
     only = getattr(ctx, "only", None)
     ctx.rule = ("L1: TiltStack in enum mode over 2..4 tilts of 2x3 / 3x2 / 5x4 token images and 2x4 / 3x6 binning-pattern "
                 "images, float32 and int16: every angle order, every non-empty proper index subset (0-/1-based), split, flip "
-                "axes, every admissible crop, binning, x every (input order, output order, source, output file) combination; "
+                "axes, every crop window 1..size on both axes (all parity combinations), binning, x every (input order, output order, source, output file) combination; "
                 "L2: those transitions (sub-sampled by seed) and seeded call sequences on stacks of 2..25 tilts, sizes 4..40 "
                 "are executed; inputs and expected outputs are the ones TLC emitted. distinct = distinct (call sequence, "
                 "interpretation) cases")
     ctx.assumptions += ["interpretation gamma: pixel token t -> a*t + b (injective, exact in float32 / int16, linear so "
                         "block means carry over); tilt angles = distinct values >= 0.01 apart realising the rank vector",
-                        "crop sizes have the parity of the image size and image sizes are multiples of the binning factor "
-                        "with block sums divisible by f*f (unique central window, integer means: no rounding rule assumed)",
+                        "centre convention floor(N/2): the central crop window of length n has its centre index n//2 on the "
+                        "image centre N//2 (start = N//2 - n//2), claimed for all four parity combinations on both axes",
+                        "image sizes are multiples of the binning factor with block sums divisible by f*f (integer means: no "
+                        "rounding rule assumed)",
                         "index subsets are non-empty and proper; every call receives a stack of at least 2 tilts",
                         "flip axes follow the documented IMOD meaning (clip flipx reverses the rows, flipy the columns, "
                         "flipz the tilt order); the property's own wording only requires the involution",
@@ -463,6 +466,22 @@ def run(ctx):
             rest += groups[k][quota:]
         rest.sort(key=lambda t: core.stable_hash([ctx.seed, t]))
         chosen += rest[:max(0, budget - len(chosen))]
+        # the crops that are executed cover, on both axes, all four (image length parity, window length parity) pairs
+        par = {"w": {}, "h": {}}
+        for t in chosen:
+            if t["op"]["name"] == "crop":
+                dims = t["inp"]["doc"]["dims"] if "doc" in t["inp"] else None
+                if dims is None:
+                    a = t["inp"]["arr"]
+                    dims = [len(a), len(a[0])] if t["op"]["io"] == "xyz" else [len(a[0][0]), len(a[0])]
+                for ax, full, new in (("w", dims[0], t["op"]["w"]), ("h", dims[1], t["op"]["h"])):
+                    if new:
+                        key = "%s->%s" % ("even" if full % 2 == 0 else "odd", "even" if new % 2 == 0 else "odd")
+                        par[ax][key] = par[ax].get(key, 0) + 1
+        for ax in par:
+            if len(par[ax]) < 4:
+                raise core.MachineryError("coverage hole: crop parity combinations on axis %s: %s" % (ax, par[ax]))
+        ctx.extra["crop_parity_cases"] = par
         ctx.extra["transitions_emitted"] = len(trs)
         ctx.extra["transitions_replayed"] = len(chosen)
         ctx.exhaustive["L2_transitions"] = len(chosen) == len(trs)
